@@ -379,6 +379,35 @@ def DecodeTargetReadyMessage : List String := [
   "err = coreerrors.New(coreerrors.CodeInvalidPacket, \"invalid target ready message format\")",
   "return"
 ]
+def Listener_handleConnection : List String := [
+  "shouldCloseConn := true",
+  "defer func",
+  "if shouldCloseConn",
+  "conn.Close()",
+  "end",
+  "end()",
+  "tcpConn, ok := conn.(*net.TCPConn)",
+  "if !ok",
+  "return",
+  "end",
+  "tunnelID, frameType, data, err := ReadFrame(tcpConn)",
+  "if err != nil",
+  "return",
+  "end",
+  "tunnelIDStr := TunnelIDToString(tunnelID)",
+  "switch frameType",
+  "case FrameTypeTargetReady",
+  "shouldCloseConn = false",
+  "l.handleTargetReady(ctx, tcpConn, tunnelIDStr, data)",
+  "case FrameTypeHTTPProxy",
+  "l.handleHTTPProxy(ctx, tcpConn, data)",
+  "case FrameTypeDNSQuery",
+  "l.handleDNSQuery(ctx, tcpConn, data)",
+  "case FrameTypeCommand",
+  "l.handleCommand(ctx, tcpConn, data)",
+  "default",
+  "end"
+]
 end Flow
 
 end Gen
